@@ -391,6 +391,12 @@ func TestC08(t *testing.T) {
 			c.Gen.W = map[string]int{"CreatePromise": 4, "CreatePromiseAndTask": 2, "CreateCallback": 4, "CreateSubscription": 3, "CompletePromise": 4, "ClaimTask": 4, "CompleteTask": 2, "HeartbeatTasks": 1}
 			c.Prof.SendFail = 4
 			c.Prof.SendLose = 12
+			if d.OneIn(3, "nopromisesweep") {
+				// without the promise sweep overdue promises keep their (overdue, still init) tasks: the dispatch cycle
+				// meets records it must skip next to records it must hand off
+				c.Prof.Bg = []string{"EnqueueTasks", "TimeoutTasks"}
+				c.Gen.TimeoutDeltas = []int64{1000, 2000, 3000, 20000}
+			}
 			if d.OneIn(3, "routerfail") {
 				c.Prof.RouterFail = 6
 			}
@@ -427,6 +433,24 @@ func TestC08(t *testing.T) {
 							labels = append(labels, "cycle-with-2-candidates-of-one-root")
 							nontriv = true
 						}
+					}
+				}
+			}
+			for _, tx := range s.Txs {
+				if strings.HasPrefix(tx.ReqId, "EnqueueTasks:") && len(tx.Diff) > 0 {
+					skipped, other := 0, 0
+					for _, c := range tx.Diff {
+						if c.Table == "tasks" && c.After != nil && c.After.I("state") == tTimedout {
+							skipped++
+						} else if c.Table == "tasks" {
+							other++
+						}
+					}
+					if skipped > 0 && other > 0 {
+						labels = append(labels, "cycle-skipping-an-overdue-task-next-to-handoffs")
+						nontriv = true
+					} else if skipped > 0 {
+						labels = append(labels, "cycle-skipping-an-overdue-task")
 					}
 				}
 			}
